@@ -1114,6 +1114,10 @@ class Engine:
                 return self.quantifier(nm, node, fr)
             if nm == "implies":
                 a = self.truth(self.ev(node.args[0], fr), fr)
+                if z3.is_false(z3.simplify(a)) or self.entails(fr.st, z3.Not(a), timeout=500):
+                    # antecedent false on this path: the consequent (which may mention names that do not
+                    # exist here) is not evaluated
+                    return mk_bool(True)
                 b = self.truth(self.ev(node.args[1], fr), fr)
                 return mk_bool(z3.Implies(a, b))
             if nm == "iff":
